@@ -399,6 +399,8 @@ def gen_aux_op(rng, kind, n, keys, incs, ov=0.0, top=5):
 
 def gen_node_op(rng, kind, n, x=None):
     """remove_node (with / without keep_edges), clear, add_nodes (Hypergraph: now and then with the metadata table)"""
+    if x is None and rng.random() < 0.2:
+        return gen_batch_op(rng, kind, n, [], rng.choice([0.1, 0.9, 0.9]))
     x = rng.random() if x is None else x
     if x < 0.5:
         return ["rmnode", rng.randrange(n), rng.random() < 0.5]
@@ -421,6 +423,33 @@ def gen_node_op(rng, kind, n, x=None):
                 tb2.append([r, md])
         return ["addnodes", ns, tb2]
     return ["addnodes", ns]
+
+
+def gen_batch_op(rng, kind, n, hist, x=None):
+    """calls that may raise HALF-WAY (Model/C05Batch.lean): remove_node as the code runs it (`rmnodex`: also a node that is source
+    and target of one directed hyperedge), remove_edges / remove_nodes (Hypergraph validates the whole batch first,
+    DirectedHypergraph stops at the first failing call and keeps what was done) - valid batches, a repeated item, an
+    absent item (mostly NOT in the first place, so that a half-done batch shows)"""
+    x = rng.random() if x is None else x
+    if x < 0.3:
+        return ["rmnodex", rng.randrange(n), rng.random() < 0.5]
+    if x < 0.65:
+        keys = []
+        for op in hist:
+            if op[0] == "addedge" and canon_raw(kind, op[1]) not in keys:
+                keys.append(canon_raw(kind, op[1]))
+        ks = rng.sample(keys, rng.randint(0, min(3, len(keys)))) if keys else []
+        y = rng.random()
+        if ks and y < 0.25:
+            ks.insert(rng.randint(1, len(ks)), rng.choice(ks))                      # one hyperedge twice
+        elif y < 0.45:
+            ks.insert(rng.randint(min(1, len(ks)), len(ks)), canon_raw(kind, gen_raw(rng, kind, n)))   # (mostly) absent
+        return ["rmedges", [perm_raw(rng, kind, k) for k in ks]]
+    ns = rng.sample(range(n), rng.randint(0, min(3, n)))
+    y = rng.random()
+    if ns and y < 0.25:
+        ns.insert(rng.randint(1, len(ns)), rng.choice(ns))                          # one node twice
+    return ["rmnodes", ns, rng.random() < 0.5]
 
 
 def gen_ops(rng, kind, weighted, n, present, length, extended=False, p_aux=0.16, incs=None, ov=0.0, top=5, p_share=0.2):
@@ -555,6 +584,9 @@ def gen_source_flavoured(rng, flavour, kind, weighted):
                     used.add(canon_raw(kind, raw))
                     hist.append(["addedge", raw, q, gen_md(rng)])
                     break
+        if hist and hist[-1][0] == "addedge":
+            # weight exactly 0 reached through set_weight as well (add_edge(weight=0) is another path: C05-f3)
+            hist.append(["setw", list(hist[-1][1]) if kind == "u" else [list(hist[-1][1][0]), list(hist[-1][1][1])], rng.choice([3, 10])])
         case["history"] = hist
     elif flavour == "nocopy":
         case = gen_source(rng, n=n, kind=kind, weighted=weighted, nv=NV_ALL)
@@ -594,6 +626,19 @@ def gen_source_extended(rng):
         if op[0] == "clear" and rng.random() < 0.6:
             continue
         hist.insert(rng.randint(len(hist) // 2, len(hist)), op)
+    for x in (0.4, 0.8, rng.random()):
+        hist.insert(rng.randint(len(hist) // 2, len(hist)), gen_batch_op(rng, case["kind"], n, hist, x))
+    if case["kind"] == "d" and n >= 2 and rng.random() < 0.8:
+        # a node on BOTH sides of one hyperedge, then remove_node of it: the code raises half-way; the state it leaves is
+        # compared with the model like any other (`C05_remove_node_both_sides`), and the history goes on
+        a = rng.randrange(n)
+        s_ = [a] + [r for r in rng.sample(range(n), min(n, rng.randint(0, 2))) if r != a]
+        t_ = [a] + [r for r in rng.sample(range(n), min(n, rng.randint(0, 2))) if r != a]
+        rng.shuffle(s_)
+        rng.shuffle(t_)
+        hist.append(["addedge", [s_, t_], rng.randint(1, 12) if case["weighted"] else None, gen_md(rng)])
+        hist.append(["rmnodex", a, rng.random() < 0.6])
+        hist += gen_ops(rng, "d", case["weighted"], n, set(), rng.randint(0, 3), ov=case.get("ov", 0.0))
     case = {**case, "history": hist, "extended": True}
     if case["weighted"] and rng.random() < 0.35:
         # weights of every numeric kind (nan, inf, 0, huge ints, Fractions, numpy floats, ...), see XW
@@ -802,6 +847,12 @@ def apply_py(case, h, op):
             # quantifier "disjoint sides"): not part of any history here
             return ("skip", None)
         return guard(h.remove_node, lab(case, op[1]), op[2])
+    if t == "rmnodex":
+        return guard(h.remove_node, lab(case, op[1]), op[2])
+    if t == "rmedges":
+        return guard(h.remove_edges, [py_key(case, raw, b + i) for i, raw in enumerate(op[1])])
+    if t == "rmnodes":
+        return guard(h.remove_nodes, [lab(case, r) for r in op[1]], op[2])
     if t == "clear":
         return guard(h.clear)
     if t == "addnodes":
@@ -856,6 +907,12 @@ def model_line(case, slot, op):
         return f"{k} attrh {slot} {op[1]} {op[2]}"
     if t == "rmnode":
         return f"{k} rmnode {slot} {op[1]} {int(bool(op[2]))}"
+    if t == "rmnodex":
+        return f"{k} rmnodex {slot} {op[1]} {int(bool(op[2]))}"
+    if t == "rmedges":
+        return f"{k} rmedges {slot} " + (";".join(w_key(k, raw) for raw in op[1]) if op[1] else "~")
+    if t == "rmnodes":
+        return f"{k} rmnodes {slot} " + (",".join(str(r) for r in op[1]) if op[1] else "-") + f" {int(bool(op[2]))}"
     if t == "clear":
         return f"{k} clear {slot}"
     if t == "addnodes":
@@ -1981,8 +2038,11 @@ def _check_source(ctx, drv, case, only=None):
     # every numeric kind (`xw`) are outside a value-based model with integer quanta
     modelled = not case.get("xw") and not any(op[0] == "sharemd" for op in case["history"])
     if modelled:
+        for op, o in zip(case["history"], outs):
+            if op[0] in ("rmnodex", "rmedges", "rmnodes") and o != "ok":
+                ctx.count("model_op_" + op[0] + "_raised_" + kind)
         for op in case["history"]:
-            if op[0] in ("rmnode", "clear", "addnodes"):
+            if op[0] in ("rmnode", "clear", "addnodes", "rmnodex", "rmedges", "rmnodes"):
                 ctx.count("model_op_" + op[0] + ("_keep" if op[0] == "rmnode" and op[2] else "") +
                           ("_table" if op[0] == "addnodes" and len(op) > 2 else ""))
         if case.get("extended"):
@@ -2443,7 +2503,7 @@ def check_copy(ctx, case, h, S, cp, lines, want, tags, skey):
             lines.append(model_line(case, 3, op))
         want.append("ok" if o == "ok" else "rej")
         tags.append(("copy-op", full))
-        if op[0] in ("rmnode", "clear", "addnodes"):
+        if op[0] in ("rmnode", "clear", "addnodes", "rmnodex", "rmedges", "rmnodes"):
             ctx.count("model_op_in_copy_round_" + op[0])
     for slot, obj in ((2, c), (3, orig)):
         s = snap(obj)
@@ -2561,6 +2621,66 @@ def gen_labels_large(rng, n):
     return sorted(rng.sample([i / 8 for i in range(1, 2000, 3)] + [2 ** 63 + i for i in range(100)], n))
 
 
+def gen_source_halfway(rng):
+    """a small history with several calls that may raise half-way (see `gen_batch_op`); for the directed class a node on both
+    sides of one hyperedge is removed (alone and inside a remove_nodes batch)"""
+    case = gen_source(rng)
+    kind, n = case["kind"], len(case["labels"])
+    hist = list(case["history"])
+    for _ in range(rng.randint(2, 4)):
+        hist.insert(rng.randint(len(hist) // 2, len(hist)), gen_batch_op(rng, kind, n, hist))
+    if kind == "d" and n >= 2:
+        a = rng.randrange(n)
+        s_ = [a] + [r for r in rng.sample(range(n), min(n, rng.randint(0, 2))) if r != a]
+        t_ = [a] + [r for r in rng.sample(range(n), min(n, rng.randint(0, 2))) if r != a]
+        hist.append(["addedge", [s_, t_], rng.randint(1, 12) if case["weighted"] else None, gen_md(rng)])
+        if rng.random() < 0.5:
+            hist.append(["rmnodex", a, rng.random() < 0.6])
+        else:
+            ns = [r for r in rng.sample(range(n), min(n, 2)) if r != a]
+            ns.insert(rng.randint(0, len(ns)), a)
+            hist.append(["rmnodes", ns, rng.random() < 0.6])
+        hist += gen_ops(rng, "d", case["weighted"], n, set(), rng.randint(0, 2), ov=case.get("ov", 0.0))
+        hist.append(gen_batch_op(rng, kind, n, hist))
+    return {**case, "history": hist, "extended": True}
+
+
+def check_halfway(ctx, drv, case):
+    """model / implementation comparison of the state LEFT by every call that may raise half-way (Model/C05Batch.lean):
+    verdict of every call of the history, full content after each such call and at the end"""
+    if drv is None:
+        return
+    case = {**case, "labels": [norm_label(x) for x in case["labels"]]}
+    kind = case["kind"]
+    regime(case)
+    try:
+        h = new_object(case)
+        lines, want = [f"{kind} new 0 {int(case['weighted'])}"], ["ok"]
+        raised = 0
+        for op in list(case["history"]) + [None]:
+            if op is not None:
+                o = apply_py(case, h, op)[0]
+                lines.append(model_line(case, 0, op))
+                want.append("ok" if o == "ok" else "rej")
+            if op is None or op[0] in ("rmnodex", "rmedges", "rmnodes"):
+                if op is not None:
+                    ctx.count("halfway_" + op[0] + "_" + kind + ("_raised" if o != "ok" else "_returned"))
+                    raised += o != "ok"
+                S = snap(h)
+                if S[0] == "exc":
+                    viol(ctx, {**case, "sel": None, "halfway": True},
+                         "the object cannot be observed through the public API after " + repr(op) + ": " + str(S[1]))
+                    return
+                lines.append(f"{kind} q 0")
+                want.append(tok_snap(case, S))
+    except Exception as e:  # noqa: BLE001
+        viol(ctx, {**case, "sel": None, "halfway": True}, f"exception while exercising the implementation: {type(e).__name__}: {str(e)[:120]}")
+        return
+    full = {**case, "sel": None, "halfway": True}
+    ctx.case("halfway" + repr(case["history"]) + repr(case["labels"]), raised > 0, sample=full if raised else None)
+    _finish_model(ctx, drv, case, lines, want, [("halfway", full)] * len(lines), True)
+
+
 def run(ctx):
     drv = ctx.driver() if ctx.model_available else None
     n = ctx.scale(24, 520)
@@ -2590,6 +2710,9 @@ def run(ctx):
         check_source(ctx, drv, gen_source(ctx.rng))
         if i < n_ext * 4 and i % 4 == 0 and not stop():
             check_source(ctx, drv, gen_source_extended(ctx.rng))
+        if not stop():
+            for _ in range(3):
+                check_halfway(ctx, drv, gen_source_halfway(ctx.rng))
         if i % max(1, n // n_large) == 1 and not stop():
             n_large_done += 1
             check_source(ctx, drv, gen_source_large(ctx.rng, "ud"[n_large_done % 2]))
@@ -2604,4 +2727,7 @@ def replay(ctx, case):
     drv = ctx.driver() if ctx.model_available else None
     case = dict(case)
     sel = case.pop("sel", None)
+    if case.pop("halfway", None):
+        check_halfway(ctx, drv, case)
+        return
     check_source(ctx, drv, case, only=None if sel is None else [sel])
